@@ -62,6 +62,11 @@ def run_matrices(ctx):
                 else:
                     c = [rng.choice([rng.uniform(-3, 3), float(rng.randint(-2, 2))]) for _ in range(n)]
                 cases.append((kind, n, [float(v) for v in c]))
+                # the same vector in other units (exact powers of two): the constraint is about the SIGN of differences,
+                # whatever their magnitude (coefficients of a response measured in units of 1e-19, or 1e12)
+                if r % 2 == 0:
+                    u = [2.0 ** -70, 2.0 ** 40, 2.0 ** -200][(r // 2 + n) % 3]
+                    cases.append((kind, n, [float(v) * u for v in c]))
     ops = ['C05 con %s %d | %s' % (kind, n, ' '.join(termgen.q(v) for v in c)) for kind, n, c in cases]
     outs = ctx.driver.run(ops)
     for (kind, n, c), out in zip(cases, outs):
@@ -86,7 +91,7 @@ def run_matrices(ctx):
                 bad = 'not symmetric'
             else:
                 got = float(ca @ C @ ca)
-                if abs(got - want) > 1e-9 * max(1.0, abs(want)):
+                if abs(got - want) > 1e-9 * abs(want):        # relative: want == 0 (no violation) demands exactly 0
                     bad = 'quadratic form %.12g != sum of squared violating differences %.12g' % (got, want)
                 elif (got == 0) != (nviol == 0) and abs(want) > 1e-300:
                     bad = 'zero-iff-satisfied fails'
@@ -221,10 +226,11 @@ def _fit_case(args):
     base = (3 * x + np.sin(9 * x)) if kind.startswith('mono') else (6 * (x - 0.5) ** 2 + 0.5 * np.sin(11 * x))
     eta = sign * base + 0.1 * rng.normal(size=n)
     X = np.c_[x, x2]
-    if cls_name == 'LinearGAM':
-        y = eta
-    elif cls_name == 'ExpectileGAM':
-        y = eta
+    unit = 1.0
+    if cls_name in ('LinearGAM', 'ExpectileGAM'):
+        # identity link: the response may be measured in any unit (energies in joule ~ 1e-19, counts of 1e6)
+        unit = [1.0, 1.0, 1.602e-19, 1e6, 1e-9][seed % 5]
+        y = eta * unit
     elif cls_name == 'PoissonGAM':
         y = rng.poisson(np.exp(0.5 * eta - np.min(0.5 * eta) * 0 - 1)).astype(float)
     elif cls_name == 'LogisticGAM':
@@ -270,6 +276,7 @@ def _fit_case(args):
         worst = max(worst, v)
     res['violation'] = worst
     res['span'] = span
+    res['unit'] = unit
     idx = gam.terms.get_coef_indices(0)
     res['coef_scale'] = float(np.abs(gam.coef_[idx]).max())
     return res
@@ -309,7 +316,9 @@ def run_fits(ctx):
             continue
         if r['status'] != 'ok' or not r['converged']:
             continue
-        bound = 1e-6 * (1.0 + r['span'])
+        # identity-link classes: everything scales with the unit of the response; other links: link scale is absolute
+        bound = 1e-6 * ((1.0 if r.get('unit', 1.0) == 1.0 else r['unit']) + r['span'])
+        ctx.count('response unit (identity-link classes)', '%g' % r.get('unit', 1.0))
         if r['violation'] > bound:
             ctx.fail(st, dict(kind='shape', constraint=kind, cls=cls_name), dict(sig, seed=seed),
                      observed=dict(violation=r['violation'], function_range=r['span'], iterations=r['n_iter']),
